@@ -64,6 +64,7 @@ type c20World struct {
 	lastAcc  int
 	built    int // blocks built so far
 	inSync   bool
+	syncShape  bool // block tree of the state-sync harness
 	smallCache bool // accepted-block caches smaller than the accepted queue can hold
 	vacuous  [c20MaxBlocks]bool // verified (status 1) while the VM was not ready
 }
@@ -206,18 +207,30 @@ type c20SB = StatefulBlock[*c20Blk, *c20Blk, *c20Blk]
 
 // c20setup builds the VM the way Initialize does (minus networking/config parsing), on a block tree
 //   G -- A1 -- A2
-//    \-- B1 -- B2            (thorough: A1 -- C2 as well)
+//    \-- B1 -- B2            (thorough: A1 -- C2 as well; the state-sync harness uses its own shape, see below)
 func c20setup(ctx context.Context, w *c20World, parsedCache, acceptedCache int) (*c20VM, *c20Index) {
 	g := c20new(nil, 0, 0)
-	a1 := c20new(g, 1, 1)
-	b1 := c20new(g, 2, 2)
-	a2 := c20new(a1, 3, 3)
-	b2 := c20new(b1, 4, 4)
-	w.blocks[0], w.blocks[1], w.blocks[2], w.blocks[3], w.blocks[4] = g, a1, b1, a2, b2
-	w.nblocks = 5
-	if verifParam("forkAtHeight2", 0, 1) == 1 {
-		w.blocks[5] = c20new(a1, 5, 5)
+	if w.syncShape {
+		// G -- A1 -- A2 -- A3
+		//        \-- C2 -- C3
+		a1 := c20new(g, 1, 1)
+		a2 := c20new(a1, 2, 2)
+		c2 := c20new(a1, 3, 3)
+		a3 := c20new(a2, 4, 4)
+		c3 := c20new(c2, 5, 5)
+		w.blocks[0], w.blocks[1], w.blocks[2], w.blocks[3], w.blocks[4], w.blocks[5] = g, a1, a2, c2, a3, c3
 		w.nblocks = 6
+	} else {
+		a1 := c20new(g, 1, 1)
+		b1 := c20new(g, 2, 2)
+		a2 := c20new(a1, 3, 3)
+		b2 := c20new(b1, 4, 4)
+		w.blocks[0], w.blocks[1], w.blocks[2], w.blocks[3], w.blocks[4] = g, a1, b1, a2, b2
+		w.nblocks = 5
+		if verifParam("forkAtHeight2", 0, 1) == 1 {
+			w.blocks[5] = c20new(a1, 5, 5)
+			w.nblocks = 6
+		}
 	}
 	// at most one block fails verification
 	if k := verifChoose("invalidBlock", w.nblocks); k > 0 {
@@ -476,4 +489,211 @@ func VerifC20() {
 	}
 	c20final(ctx, vm, w)
 	verifReach("end")
+}
+
+// ---- C21: dynamic state sync hand-over ----
+
+// VerifC21: state sync starts at target A1 while the node is at genesis; during sync the engine performs up to
+// `syncCalls` calls (vacuous verifies, accepts of valid blocks, rejects) over the tree; sync finishes at any accepted block
+// between the start target and the tip. Afterwards the chain's accepted state must be the engine's tip, every processing
+// block must have been re-verified (or counted unresolved when it or a processing ancestor is invalid), and the health
+// check must report unhealthy exactly until the unresolved blocks are rejected.
+func VerifC21() {
+	ctx := context.Background()
+	w := &c20World{syncShape: true}
+	vm, _ := c20setup(ctx, w, 4, 8)
+	if w.blocks[1].invalid {
+		verifAssume(false) // the sync target is an accepted, hence valid, block
+	}
+	// start state sync at A1
+	if err := vm.StartStateSync(ctx, w.blocks[1]); err != nil {
+		verifFail("start-state-sync-error")
+	}
+	w.inSync = true
+	w.status[1] = 2
+	w.lastAcc = 1
+	n := verifParam("syncCalls", 4, 5)
+	for i := 0; i < n; i++ {
+		c21syncStep(ctx, vm, w)
+	}
+	// the syncer finishes on some accepted block from the start target up to the tip
+	var accepted []int
+	for k := w.lastAcc; ; {
+		accepted = append([]int{k}, accepted...)
+		if k == 1 {
+			break
+		}
+		k = w.byID(w.blocks[k].parent).n
+	}
+	synced := accepted[verifChoose("finishAt", len(accepted))]
+	w.chainVerified[synced] = 1 // its output/accepted state come from the syncer
+	w.chainAccepted[synced] = 1
+	sb := w.blocks[synced]
+	if err := vm.FinishStateSync(ctx, sb, sb, sb); err != nil {
+		verifFail("finish-state-sync-error")
+	}
+	w.inSync = false
+	if !vm.ready {
+		verifFail("not-ready-after-finish")
+	}
+	// (a) accepted state == the engine's tip, reached by executing exactly the blocks after the synced one, in order
+	tip := w.blocks[w.lastAcc]
+	la, err := vm.GetConsensusIndex().GetLastAccepted(ctx)
+	if err != nil {
+		verifFail("no-last-accepted-after-finish")
+	}
+	if la.id != tip.id {
+		verifFail("accepted-state-differs-from-engine-tip")
+	}
+	want := 0
+	for _, k := range accepted {
+		if w.blocks[k].h > sb.h {
+			if want >= len(w.acceptOrder) {
+				verifFail("accepted-block-not-executed-after-sync")
+			}
+			if w.acceptOrder[want] != k {
+				verifFail("blocks-executed-out-of-order-after-sync")
+			}
+			if w.notAccepted[k] != 1 {
+				verifFail("reprocessed-block-not-notified-as-accepted")
+			}
+			want++
+			verifReach("reprocessed")
+		} else if w.chainAccepted[k] != 0 && k != synced {
+			verifFail("block-before-sync-point-executed")
+		}
+		if k != 1 {
+			if w.notPreAccepted[k] != 1 {
+				verifFail("accept-during-sync-not-notified-once")
+			}
+		}
+	}
+	if want != len(w.acceptOrder) {
+		verifFail("unexpected-block-executed-after-sync")
+	}
+	// (b) processing blocks re-verified against the accepted state
+	unresolved := 0
+	var bad [c20MaxBlocks]bool
+	for h := uint64(1); h <= 4; h++ {
+		for k := 1; k < w.nblocks; k++ {
+			if w.status[k] != 1 || w.blocks[k].h != h {
+				continue
+			}
+			p := w.byID(w.blocks[k].parent).n
+			ok := !w.blocks[k].invalid
+			if bad[p] {
+				ok = false
+			}
+			if w.status[p] != 2 && w.status[p] != 1 {
+				ok = false
+			}
+			st, err := vm.GetBlock(ctx, w.blocks[k].id)
+			if err != nil {
+				verifFail("processing-block-lost")
+			}
+			if st.verified != ok {
+				if ok {
+					verifFail("valid-processing-block-not-reverified")
+				}
+				verifFail("invalid-processing-block-counts-as-verified")
+			}
+			if ok {
+				if w.chainVerified[k] != 1 {
+					verifFail("processing-block-not-reverified-exactly-once")
+				}
+				verifReach("reverified")
+			} else {
+				bad[k] = true
+				unresolved++
+			}
+		}
+	}
+	// (c) health: unhealthy exactly while a failed processing block has not been rejected
+	for {
+		_, herr := vm.HealthCheck(ctx)
+		if (herr != nil) != (unresolved > 0) {
+			if herr == nil {
+				verifFail("healthy-with-unresolved-invalid-processing-block")
+			}
+			verifFail("unhealthy-without-unresolved-block")
+		}
+		if unresolved == 0 {
+			break
+		}
+		verifReach("unhealthy")
+		for k := 1; k < w.nblocks; k++ {
+			if bad[k] {
+				rb := c20block(ctx, vm, w, k)
+				if err := rb.Reject(ctx); err != nil {
+					verifFail("reject-error")
+				}
+				w.status[k] = 3
+				bad[k] = false
+				unresolved--
+				break
+			}
+		}
+	}
+	// (d) normal operation continues on the re-verified state (the chain-side checks of C20 are active)
+	for i := 0; i < verifParam("callsAfterSync", 2, 3); i++ {
+		c20step(ctx, vm, w, false)
+	}
+	vm.acceptedQueueBlocksProcessedWg.Wait()
+	la2, _ := vm.LastAccepted(ctx)
+	if la2 != w.blocks[w.lastAcc].id {
+		verifFail("last-accepted-differs-from-engine")
+	}
+	verifReach("end")
+}
+
+// c21syncStep: one engine call during dynamic state sync (the VM is not ready: verification is vacuous).
+func c21syncStep(ctx context.Context, vm *c20VM, w *c20World) {
+	var kinds, args []int
+	for k := 1; k < w.nblocks; k++ {
+		p := w.byID(w.blocks[k].parent).n
+		if w.status[k] == 0 {
+			if w.status[p] == 1 || (w.status[p] == 2 && p == w.lastAcc) {
+				kinds, args = append(kinds, 0), append(args, k)
+			}
+		}
+		// the network only accepts valid blocks
+		if w.status[k] == 1 && p == w.lastAcc && !w.blocks[k].invalid {
+			kinds, args = append(kinds, 1), append(args, k)
+		}
+	}
+	if len(kinds) == 0 {
+		return
+	}
+	m := verifChoose("engineCall", len(kinds))
+	k := args[m]
+	sb := c20block(ctx, vm, w, k)
+	switch kinds[m] {
+	case 0:
+		if err := sb.Verify(ctx); err != nil {
+			verifFail("verify-fails-during-state-sync")
+		}
+		w.status[k] = 1
+		w.vacuous[k] = true
+	case 1:
+		if err := sb.Accept(ctx); err != nil {
+			verifFail("accept-error-during-state-sync")
+		}
+		w.status[k] = 2
+		w.lastAcc = k
+		for h := uint64(1); h <= 4; h++ {
+			for j := 1; j < w.nblocks; j++ {
+				if w.status[j] == 1 && w.blocks[j].h == h && !c20isAncestorOrSelf(w, k, j) {
+					rb := c20block(ctx, vm, w, j)
+					if err := rb.Reject(ctx); err != nil {
+						verifFail("reject-error")
+					}
+					if w.notPreRejected[j] != 1 {
+						verifFail("reject-during-sync-not-notified")
+					}
+					w.status[j] = 3
+				}
+			}
+		}
+		verifReach("accepted-during-sync")
+	}
 }
